@@ -21,6 +21,8 @@ Reason(r) ==
      ELSE IF Len(r.bytes) = 0 THEN (IF r.backOk THEN "ok" ELSE "empty-text-rejected")
      ELSE IF ~r.backOk \/ r.back # r.bytes THEN "decode-does-not-invert-encode" ELSE "ok"
   ELSE IF r.fn = "dec" THEN DecodeVerdict(r.text, r.ok, r.bytes)
+  \* a result handed out earlier, looked at again after eight more calls: still the decoding of its text
+  ELSE IF r.fn = "held" THEN (IF r.now # r.was \/ r.now # Decode(r.text) THEN "earlier-result-changed-by-later-calls" ELSE "ok")
   ELSE IF r.fn = "addr" THEN
      \* the recorder's reference decoding must be the definition's, or its checksum is about other bytes
      IF r.refOk # (Decodable(r.text)) \/ (r.refOk /\ r.ref # Decode(r.text)) THEN "harness-reference-decoding"
